@@ -295,8 +295,11 @@ func (e *frtEnv) names(ids []peer.ID, c []crawled) []string {
 
 func c16SwapConfigs(tier string) []vmc.Cfg {
 	return []vmc.Cfg{
-		{Name: "swap/one-reader", Budget: 100, Data: 1},
-		{Name: "swap/two-readers", Budget: 4, Data: 2},
+		{Name: "swap/one-reader", Budget: 100, Data: [2]int{1, 0}},
+		{Name: "swap/two-readers", Budget: 4, Data: [2]int{2, 0}},
+		// with a diversity limit the answer also depends on the address map of the crawl
+		{Name: "swap/one-reader/limit1", Budget: 100, Data: [2]int{1, 1}},
+		{Name: "swap/two-readers/limit1", Budget: 4, Data: [2]int{2, 1}},
 	}
 }
 
@@ -305,9 +308,9 @@ func TestVMC_C16swap(t *testing.T) {
 }
 
 func c16SwapRun(x *vmc.X, cfg vmc.Cfg) {
-	readers := cfg.Data.(int)
+	readers, limit := cfg.Data.([2]int)[0], cfg.Data.([2]int)[1]
 	const K = 2
-	e, err := newFRT(K, 0)
+	e, err := newFRT(K, limit)
 	if err != nil {
 		x.Failf("C16/setup", "%v", err)
 		return
@@ -317,7 +320,12 @@ func c16SwapRun(x *vmc.X, cfg vmc.Cfg) {
 	mk := func(idx ...int) []crawled {
 		var c []crawled
 		for _, i := range idx {
-			c = append(c, crawled{kid.Peer(cells[i], 6), i % 3})
+			g := i % 3
+			if limit > 0 {
+				// the two peers nearest to the key share an IP group, so the limit changes the answer
+				g = map[int]int{0: 0, 1: 0, 2: 0, 3: 0, 4: 1, 5: 1, 6: 2, 7: 2}[i]
+			}
+			c = append(c, crawled{kid.Peer(cells[i], 6), g})
 		}
 		return c
 	}
@@ -325,8 +333,8 @@ func c16SwapRun(x *vmc.X, cfg vmc.Cfg) {
 	crawlB := mk(2, 3, 5, 7) // disjoint from A: a mixture of the two loses peers
 	e.recrawl(crawlA)
 	key := kid.KeyWithPrefix("v", "000", 0)
-	wantA := fmt.Sprint(refClosest(crawlA, key, K, 0))
-	wantB := fmt.Sprint(refClosest(crawlB, key, K, 0))
+	wantA := fmt.Sprint(refClosest(crawlA, key, K, limit))
+	wantB := fmt.Sprint(refClosest(crawlB, key, K, limit))
 	sched := vmc.NewSched(x)
 	vsync.Hook = func(addr any, op string) {
 		if op == "lock" || op == "rlock" {
